@@ -445,18 +445,18 @@ val unres : 'a1 -> 'a1 res -> 'a1
 type arith = { of_int : (z -> __); add0 : (__ -> __ -> __);
                sub0 : (__ -> __ -> __); mulv : (__ -> __ -> __);
                divv : (__ -> __ -> __ res); floordivv : (__ -> __ -> __ res);
-               kmul : (__ -> __ -> rnd -> __);
-               kdiv : (__ -> __ -> rnd -> __ res);
-               kmuldiv : (__ -> __ -> __ -> rnd -> __ res);
+               kmul : (__ -> __ -> bool -> __);
+               kdiv : (__ -> __ -> bool -> __ res);
+               kmuldiv : (__ -> __ -> __ -> bool -> __ res);
                eqv : (__ -> __ -> bool); ltv : (__ -> __ -> bool);
                lev : (__ -> __ -> bool); gtv : (__ -> __ -> bool);
                gev : (__ -> __ -> bool); truth : (__ -> bool);
-               vmin : (__ list -> __ res); epsilon : __; exact : bool;
-               aname : string; ainfo : string; str : (__ -> string);
-               raw_repr : (__ -> string);
-               areport : (string -> string -> string) }
+               vmin : (__ -> __ list -> __); epsilon : __; exact : bool;
+               str : (__ -> string); raw_repr : (__ -> string) }
 
 type t = __
+
+val rnd_of : bool -> rnd
 
 val nev : arith -> t -> t -> bool
 
@@ -466,21 +466,11 @@ val mk_fixed_cls : z -> z -> fixed_cls
 
 val fixed_str : fixed_cls -> z -> string
 
-val fixed_info : z -> z -> string
-
 val fixed : z -> z -> arith
 
 val mk_guarded_cls : z -> z -> z -> z -> guarded_cls
 
 val guarded_str : guarded_cls -> z -> string
-
-val guarded_info : z -> z -> z -> string
-
-val tab : string
-
-val nl : string
-
-val guarded_report : guarded_cls -> string -> string -> string
 
 val guarded : z -> z -> z -> z -> arith
 
